@@ -629,6 +629,9 @@ pub fn run_batch(def: &'static ScenDef, seed: u64, first_run: u64, runs: u64, ga
                     }
                     for r in base..(base + CHUNK).min(runs) {
                         let run = first_run + r;
+                        if crate::core::skip_run(run) {
+                            continue;
+                        }
                         crate::core::heartbeat();
                         if let Some(f) = &idx_file {
                             use std::os::unix::fs::FileExt;
@@ -649,6 +652,7 @@ pub fn run_batch(def: &'static ScenDef, seed: u64, first_run: u64, runs: u64, ga
                         if !o.fails.is_empty() {
                             if o.fails.iter().any(|f| f.prop == gate || f.prop == "HARNESS") {
                                 if out.found.len() < max_found {
+                                    crate::core::note_found(run);
                                     out.found.push(L2Found { run_index: run, cfg: cfg.clone(), tape: o.tape.clone(), fails: o.fails.clone() });
                                 }
                                 if stop_on_first {
